@@ -45,6 +45,11 @@ def u8x16_shuffle (idx : List Nat) (a b : BitVec 128) : BitVec 128 :=
   selByte a b (idx.getD 11 0) ++ selByte a b (idx.getD 10 0) ++ selByte a b (idx.getD 9 0) ++ selByte a b (idx.getD 8 0) ++
   selByte a b (idx.getD 7 0) ++ selByte a b (idx.getD 6 0) ++ selByte a b (idx.getD 5 0) ++ selByte a b (idx.getD 4 0) ++
   selByte a b (idx.getD 3 0) ++ selByte a b (idx.getD 2 0) ++ selByte a b (idx.getD 1 0) ++ selByte a b (idx.getD 0 0)
+/-- `u8x16_swizzle(a, s)` (`i8x16.swizzle`): lane `i` is `a[s[i]]` when `s[i] < 16`, else 0 (not used by the pinned
+crate; modelled so that the conformance stream and rewrites that use it can be evaluated) -/
+def u8x16_swizzle (a s : BitVec 128) : BitVec 128 :=
+  let b (i : Nat) : BitVec 8 := let j := (byteAt s i).toNat; if j < 16 then byteAt a j else 0
+  b 15 ++ b 14 ++ b 13 ++ b 12 ++ b 11 ++ b 10 ++ b 9 ++ b 8 ++ b 7 ++ b 6 ++ b 5 ++ b 4 ++ b 3 ++ b 2 ++ b 1 ++ b 0
 def sel32 (a b : BitVec 128) (i : Nat) : BitVec 32 := if i < 4 then lane32 a i else lane32 b (i - 4)
 /-- `u32x4_shuffle::<I0, I1, I2, I3>(a, b)` -/
 def u32x4_shuffle (i0 i1 i2 i3 : Nat) (a b : BitVec 128) : BitVec 128 := u32x4 (sel32 a b i0) (sel32 a b i1) (sel32 a b i2) (sel32 a b i3)
